@@ -173,8 +173,14 @@ class RefEnum:
 # iterator model: a list with two cursors (double-ended, exact-size, fused)
 
 FINISHERS = ["collect", "rev", "fold", "rfold", "last", "count", "len", "foreach", "revfold",
-             "skiplast", "stepby2", "rposition"]
-PARAM_FINISHERS = ["takerev", "skiprev"]     # adaptor chains whose next_back relies on len() / nth_back()
+             "skiplast", "stepby2", "rposition", "find", "rfind", "reduce"]
+PARAM_FINISHERS = ["takerev", "skiprev", "position"]
+ORD_FINISHERS = ["max", "min"]               # only where the item type is Ord (names; enums that also derive Ord)     # adaptor chains whose next_back relies on len() / nth_back()
+
+
+def ordkey(x):
+    """Rust's Ord for the item types used: integers numerically, &str by bytes."""
+    return x.encode("utf-8") if isinstance(x, str) else x
 
 
 def run_iter_model(items, ops, show):
@@ -242,6 +248,17 @@ def run_iter_model(items, ops, show):
                 out.append(opt(xs[-1]) if len(xs) > 1 else "N")
             elif op == "stepby2":
                 out.append(lst(xs[::2]))
+            elif op == "find":
+                out.append(opt(xs[0]) if xs else "N")
+            elif op in ("rfind", "reduce"):
+                out.append(opt(xs[-1]) if xs else "N")
+            elif op.startswith("position:"):
+                k = int(op[9:])
+                out.append("P%d" % k if k < len(xs) else "PN")
+            elif op == "max":
+                out.append(opt(max(xs, key=ordkey)) if xs else "N")
+            elif op == "min":
+                out.append(opt(min(xs, key=ordkey)) if xs else "N")
             elif op == "rposition":
                 out.append("P%d" % (len(xs) - 1) if xs else "PN")
             elif op.startswith("takerev:"):
